@@ -71,7 +71,7 @@ mod verif_spy {
         std::mem::forget(r); std::mem::forget(rx); std::mem::forget(s);
     }
 
-    //@H name=c12_spy_emit_flush props=C06,C12,C13,C20 tier=thorough bound="capacity 8, metric 1..=3 bytes" fn=BufferedSpyMetricSink::emit,flush :: emit == one write of the whole metric into the line writer (buffered, lock released afterwards); flush == one writer.flush: one datagram metric+newline, handed over while the sink's lock is held
+    //@H name=c12_spy_emit_flush mem=heavy props=C06,C12,C13,C20 tier=thorough bound="capacity 8, metric 1..=3 bytes" fn=BufferedSpyMetricSink::emit,flush :: emit == one write of the whole metric into the line writer (buffered, lock released afterwards); flush == one writer.flush: one datagram metric+newline, handed over while the sink's lock is held
     #[kani::proof]
     #[kani::unwind(8)]
     #[kani::stub(<WriteAdapter as std::io::Write>::write, adapter_write_stub)]
@@ -92,7 +92,7 @@ mod verif_spy {
         std::mem::forget(r);
     }
 
-    //@H name=c12_spy_overflow_under_lock props=C05,C12,C20 tier=thorough bound="capacity 4, two 3-byte metrics" fn=BufferedSpyMetricSink::emit :: an emit that does not fit flushes the old buffer first, as one whole line, while holding the lock
+    //@H name=c12_spy_overflow_under_lock mem=heavy props=C05,C12,C20 tier=thorough bound="capacity 4, two 3-byte metrics" fn=BufferedSpyMetricSink::emit :: an emit that does not fit flushes the old buffer first, as one whole line, while holding the lock
     #[kani::proof]
     #[kani::unwind(8)]
     #[kani::stub(<WriteAdapter as std::io::Write>::write, adapter_write_stub)]
